@@ -44,7 +44,8 @@ void vrt_raw(const char *fmt, ...) __attribute__((format(printf, 1, 2)));	/* lin
 uint64_t vrt_rand(void);		/* scenario random choices (same PRNG stream family, separate state) */
 unsigned long vrt_steps(void);
 unsigned long vrt_mysteps(void);	/* scheduling points passed by the calling thread */
-unsigned long vrt_myrelax(void);	/* caa_cpu_relax/poll events of the calling thread (waiting) */
+unsigned long vrt_myrelax(void);
+unsigned long vrt_total_relax(void);	/* spin hints executed by all threads so far */	/* caa_cpu_relax/poll events of the calling thread (waiting) */
 void vrt_fail(const char *kind, const char *fmt, ...) __attribute__((format(printf, 2, 3)));	/* ORACLE failure: recorded, exit code 3 at finish */
 extern int vrt_failed;
 
